@@ -14,7 +14,7 @@ SCHED = "c11.sched"
 RACE = "c11.race"
 
 
-def run_harness(ctx, exe, n, reps, seed, tag, corpus_list, env_extra=None, timeout=6000):
+def run_harness(ctx, exe, n, reps, seed, tag, corpus_list, env_extra=None, timeout=6000, extra=""):
     """runs the harness, restarting after a crash. -> (lines {id: (desc, observed)}, crashes [(id, stderr)], all stderr)"""
     dump = os.path.join(ctx.workdir, tag + "_dump")
     lines, crashes, errs = {}, [], []
@@ -26,7 +26,7 @@ def run_harness(ctx, exe, n, reps, seed, tag, corpus_list, env_extra=None, timeo
             for p in corpus_list:
                 f.write(p + "\n")
         cmd = [exe, "-seed", str(seed), "-n", str(n), "-tier", ctx.tier, "-input", lst,
-               "-extra", "dump=%s,start=%d,reps=%d" % (dump, start, reps)]
+               "-extra", "dump=%s,start=%d,reps=%d%s" % (dump, start, reps, extra)]
         env = vlib.elk_env(env_extra)
         import subprocess
         try:
@@ -156,7 +156,7 @@ def run(ctx):
         hr = vlib.build_harness("c11", race=True)
         nr = 60
         lines_r, crashes_r, err_r, dump_r = run_harness(ctx, hr, nr, 1, ctx.sseed(RACE), "race", corpus,
-                                                       env_extra={"GORACE": "halt_on_error=0 exitcode=0 history_size=3"}, timeout=12000)
+                                                       env_extra={"GORACE": "halt_on_error=0 exitcode=0 history_size=3"}, timeout=12000, extra=",norun=1")
         ev_r, dist_r = report(ctx, RACE, lines_r, [c for c in crashes_r if "DATA RACE" not in c[1]], dump_r)
         reps_ = race_reports(err_r)
         seen = {}
@@ -165,6 +165,6 @@ def run(ctx):
         for k, txt in sorted(seen.items()):
             ctx.fail(k, "data race reported by the Go race detector while checking/compiling method bodies concurrently", stream=RACE,
                      case=k, impl=txt, model="no data race", oracle="checking is free of data races")
-        ctx.stream(RACE, ev_r, len(lines_r), "the c11.sched stream under `go build -race`; gating observable = DATA RACE reports whose "
+        ctx.stream(RACE, ev_r, len(lines_r), "the c11.sched programs checked + compiled (not run: the race build's checkptr instrumentation rejects the VM's unsafe stack arithmetic) under `go build -race`; gating observable = DATA RACE reports whose "
                    "access stacks contain frames of the elk module", [{"race_reports": len(reps_), "distinct": len(seen)}],
                    dict(dist_r, race_reports=len(reps_), distinct_races=len(seen)))
